@@ -150,11 +150,14 @@ impl<'r> Gen<'r> {
             }
             Ty::U8 => {
                 let form = if self.mistake(self.cfg.allow.bad_value, 15) {
-                    match self.rng.below(5) {
+                    match self.rng.below(7) {
                         0 => Form::NV(Value::Int("256".into())),
                         1 => Form::NV(Value::Int("99999999999999999999999999".into())),
                         2 => Form::NV(Value::Str("x1".into())),
                         3 => Form::NV(Value::Bool(true)),
+                        // quoted numbers mean the string as it stands: other notations, out of range or not, are rejected
+                        4 => Form::NV(Value::Str(self.rng.pick(&["0x1ff", "1_000", "0b1_0000_0000", "300u8", "-1", "256", "0x10", "7u8", " 7", ""]).to_string())),
+                        5 => Form::NV(Value::Int(self.rng.pick(&["0x1ff", "1_000", "0b1_0000_0000", "300u8", "300u16"]).to_string())),
                         _ => Form::Word,
                     }
                 } else if self.rng.pct(70) {
@@ -283,14 +286,16 @@ impl<'r> Gen<'r> {
             "0o777", "0b1010_1010", "1u8", "300u8", "1i128", "1_000_000", "7usize", "00000000000000000000000000000000000000001", "0x0",
         ];
         const FLOATS: [&str; 10] = ["1.5", "0.0", "1e10", "1e400", "3.5e38f32", "1f64", "1e-400", "123456789012345678901234567890.0", "1.0e0", "2.5f32"];
-        const STRS: [&str; 40] = [
+        const STRS: [&str; 64] = [
             "", "0", "-1", "-128", "-129", "255", "256", "1e400", "NaN", "inf", "-inf", "1.5", "abc", "a::b", "::a", "Vec<u8>", "pub(crate)", "pub", "where T: Clone",
             "T: Clone, U: Copy", "[1, 2]", "[\"a\", \"b\"]", "[1, x]", "1..2", "fn()", "|x| x", "true", "false", "x", "xy", " ", "a b", "1 2", "snake_case", "PascalCase",
-            "r#type", "self", "a,b,c", "a, b,", "é",
+            "r#type", "self", "a,b,c", "a, b,", "é", "0x1ff", "0b1_0000_0000", "1_000", "300u8", "0x10", "-0x81", "+5", "[u8; 4]", "fn(u8) -> u8", "impl Clone", "_", "m!()", "!", "(u8)",
+            "*const u8", "&'a str", "[u8]", "dyn Clone + Send", "(u8, u16)", "T: Clone", "[0x2]", "[0.5, 0x2]", "b'a'", "a + b; c",
         ];
-        const EXPRS: [&str; 34] = [
+        const EXPRS: [&str; 48] = [
             "[1, 2, 3]", "[\"a\", \"b\"]", "[1, \"a\"]", "[]", "[300, 1]", "[-1]", "[1u8, 2u64]", "a::b", "::a", "foo(1)", "1..2", "..", "(1)", "{ 1 }", "|x| x", "&x", "x as u8", "1 + 2",
-            "-1", "-129", "!true", "a.b", "a[0]", "if a { 1 } else { 2 }", "Self", "self", "crate::x", "<T as U>::V", "b'a'", "b\"bytes\"", "r#\"raw\"#", "'a'", "'\\n'", "x!()",
+            "-1", "-129", "!true", "a.b", "a[0]", "if a { 1 } else { 2 }", "Self", "self", "crate::x", "<T as U>::V", "b'a'", "b\"bytes\"", "r#\"raw\"#", "'a'", "'\\n'", "x!()", "0x10", "0xff_u8", "-0x10", "[0.5, 0x2]", "[b'a', b'b']", "['a', 'b']", "[true, false]", "1.5e3", "0o17", "|a| a + 1",
+            "path::to::f", "[b\"x\", b\"y\"]", "[1.0, 2]", "2",
         ];
         match self.rng.below(12) {
             0 => Form::Word,
@@ -645,7 +650,7 @@ fn all_receiver_names(mode: &str) -> Vec<&'static str> {
         vec!["MP", "F3", "RHS", "RHS", "RHI", "RHP", "RHN", "RHH", "RHB", "RHU", "RBS", "RBI", "RBN"]
     } else if mode == "wild" {
         let mut v = META_RECEIVERS.to_vec();
-        v.extend(["L1", "L2", "L3", "L1", "L2", "L3", "RHS", "RBI", "RHP", "RHN", "RBH"]);
+        v.extend(["L1", "L2", "L3", "L4", "L5", "L1", "L2", "L3", "L4", "L5", "RHS", "RBI", "RHP", "RHN", "RBH"]);
         v.extend(crate::gen_schema::META_NAMES);
         v
     } else {
